@@ -36,6 +36,8 @@ class C05(WrapHarness):
         out.append(dict(base, mode='fits', gen='sym1', n=3 if q else 4, ind='both', imax=1, algo='F'))
         out.append(dict(base, mode='fits', gen='symall', n=2 if q else 3, ind='si', imax=1, icl=(1, 3), algo='F'))
         out.append(dict(base, mode='fill', gen='sym1', n=3 if q else 4))
+        out.append(dict(base, mode='fill', gen='sym1', n=2 if q else 3, algo='F', ind='both', imax=1))
+        out.append(dict(base, mode='fill', gen='sym1', n=3 if q else 4, algo='F', ind='ii', imax=1, le='CRLF'))
         out.append(dict(base, mode='fill', gen='symall', n=2 if q else 3, algo='F', ind='si', imax=1))
         out.append(dict(base, mode='fill', gen='sym1', n=3 if q else 4, le='CRLF', bw=False))
         return out
